@@ -252,6 +252,35 @@ Proof.
 Qed.
 Print Assumptions C20_linear_reduces_instance.
 
+(* ---- the arithmetic special methods of JaxDiscreteField (what `u + c`, `c - u`, `c / u`, `u ** 2` ... mean inside an
+        integrand of a NonlinearForm), regenerated from skfem/autodiff/__init__.py: each IS the operator it implements,
+        for a field or an array / number as the other operand *)
+Example C20_requires_Gen_C20Gen_ops : True.
+Proof. exact I. Qed.
+Print Assumptions C20_requires_Gen_C20Gen_ops.
+Require Import Gen.C20Gen_ops.
+Theorem C20_field_operators : forall R ops, is_ring R ops -> forall s o : R,
+  (jdf_add_f s o = (s + o)%F /\ jdf_add_a s o = (s + o)%F) /\
+  (jdf_sub_f s o = (s - o)%F /\ jdf_sub_a s o = (s - o)%F) /\
+  (jdf_rsub_f s o = (o - s)%F /\ jdf_rsub_a s o = (o - s)%F) /\
+  (jdf_mul_f s o = (s * o)%F /\ jdf_mul_a s o = (s * o)%F) /\
+  (jdf_rmul_f s o = (o * s)%F /\ jdf_rmul_a s o = (o * s)%F) /\
+  (jdf_truediv_f s o = (s / o)%F /\ jdf_truediv_a s o = (s / o)%F) /\
+  (jdf_rtruediv_f s o = (o / s)%F /\ jdf_rtruediv_a s o = (o / s)%F) /\
+  (jdf_pow2 s = (s * s)%F /\ jdf_pow3 s = ((s * s) * s)%F).
+Proof.
+  intros R ops H s o.
+  split; [split; [apply jdf_add_f_def | apply jdf_add_a_def]; assumption|].
+  split; [split; [apply jdf_sub_f_def | apply jdf_sub_a_def]; assumption|].
+  split; [split; [apply jdf_rsub_f_def | apply jdf_rsub_a_def]; assumption|].
+  split; [split; [apply jdf_mul_f_def | apply jdf_mul_a_def]; assumption|].
+  split; [split; [apply jdf_rmul_f_def | apply jdf_rmul_a_def]; assumption|].
+  split; [split; [apply jdf_truediv_f_def | apply jdf_truediv_a_def]; assumption|].
+  split; [split; [apply jdf_rtruediv_f_def | apply jdf_rtruediv_a_def]; assumption|].
+  split; [apply jdf_pow2_def | apply jdf_pow3_def]; assumption.
+Qed.
+Print Assumptions C20_field_operators.
+
 (* ---- the JAX 3x3 determinant (own file: the only place defect F5 shows) *)
 (* marker: a failure of the next Require (Dyn.C20_JaxDet does not compile) is attributed to this item *)
 Example C20_requires_Dyn_C20_JaxDet : True.
